@@ -26,6 +26,7 @@ type c07Loc struct {
 type c07Table struct {
 	funcs  []string // function id = index+1; names are unique unless starts tells two builds of one function apart
 	starts []int64  // optional: Function.StartLine per function
+	files  []string // optional: Function.Filename per function (default "f.go")
 	locs   []c07Loc
 }
 type c07Sample struct {
@@ -76,6 +77,9 @@ func (t *c07Table) build(pp c07Prof) *profile.Profile {
 		f := &profile.Function{ID: uint64(i + 1), Name: n, SystemName: n, Filename: "f.go"}
 		if i < len(t.starts) {
 			f.StartLine = t.starts[i]
+		}
+		if i < len(t.files) {
+			f.Filename = t.files[i]
 		}
 		fnByIdx[i] = f
 		p.Function = append(p.Function, f)
@@ -173,15 +177,17 @@ func c07DumpMerged(p *profile.Profile) Term {
 	for _, s := range p.Sample {
 		var frames []Term
 		for _, l := range s.Location {
-			var names []string
+			var names, files []string
 			for _, ln := range l.Line {
 				if ln.Function != nil {
 					names = append(names, ln.Function.Name)
+					files = append(files, ln.Function.Filename)
 				} else {
 					names = append(names, "")
+					files = append(files, "")
 				}
 			}
-			frames = append(frames, L(ZU(l.Address), Ss(names)))
+			frames = append(frames, L(ZU(l.Address), Ss(names), Ss(files)))
 		}
 		var lab, nl []Term
 		for _, k := range sortedKeysS(s.Label) {
@@ -590,6 +596,9 @@ func runC07(c *Ctx) {
 	if os.Getenv("VERIF_ONLY") != "units" {
 		for _, sh := range c07BuildsShapes() {
 			emit("builds-"+sh.name, sh.t)
+		}
+		for _, sh := range c07FilesShapes() {
+			emit("files-"+sh.name, sh.t)
 		}
 		runC07E2E(c, func(gen string, in, obs Term, nt bool, tags ...string) { c.Case(gen, in, obs, nt, tags...) })
 	}
